@@ -45,6 +45,9 @@ def main():
         own = name.split("-")[0]
         caught = {p: v["info"] for p, v in out[name].items() if v["rc"] == 1}
         incon = [p for p, v in out[name].items() if v["rc"] == 2]
+        broken = [p for p, v in out[name].items() if v["rc"] not in (0, 1, 2)]
+        if broken:
+            print(f"{name:8} BROKEN-VARIANT for {broken[:3]}: {out[name][broken[0]]['info']}")
         print(f"{name:8} own={'CAUGHT' if own in caught else 'missed':7} caught_by={caught} inconclusive={incon}")
 
 
